@@ -137,8 +137,19 @@ fn main() {
         check(s, &mut bad, &mut shown);
         total += 1;
     }
-    println!("validated {} strings (all strings of <= {} characters over a {}-character alphabet + {} structured), {} disagreements",
-             total, n, alphabet.len(), extra.len(), bad);
+    // the literals of the constrained passes of the exploration (structured / placeholder DFA languages, digit templates), one per line
+    let mut from_file = 0u64;
+    if let Some(path) = std::env::args().nth(2) {
+        if let Ok(text) = std::fs::read_to_string(&path) {
+            for line in text.split('\n') {
+                check(line, &mut bad, &mut shown);
+                total += 1;
+                from_file += 1;
+            }
+        }
+    }
+    println!("validated {} strings (all strings of <= {} characters over a {}-character alphabet + {} structured + {} literals of the constrained passes), {} disagreements",
+             total, n, alphabet.len(), extra.len(), from_file, bad);
     if bad > 0 {
         std::process::exit(1);
     }
